@@ -531,6 +531,10 @@ func TestReplay(t *testing.T) {
 		replayStreams(t, c, doc.Data)
 		return
 	}
+	if doc.Check == "pipeline" {
+		replayPipeline(t, c, doc.Data)
+		return
+	}
 	if doc.Key == idCrashNearbyBuffer {
 		// would take an in-process server (and this binary) down: use a child process
 		var p program
